@@ -34,6 +34,14 @@ def witnessF25bOk : Bool :=
 
 private theorem witnessF25b_eval : witnessF25bOk = true := by decide +kernel
 
+/-- the witness of F-C25c: as `witnessF25a` with SRV data `c00c c02c 00` -/
+def witnessF25c : Bytes :=
+  [0x00,0x01,0x81,0x80,0x00,0x01,0x00,0x01,0x00,0x00,0x00,0x00, 0x04,0x61,0x62,0x63,0x64,0x00, 0x00,0x21,0x00,0x01,
+   0xc0,0x0c, 0x00,0x21,0x00,0x01, 0x00,0x00,0x00,0x3c, 0x00,0x05, 0xc0,0x0c,0xc0,0x2c,0x00]
+
+private theorem witnessF25c_rejected : ∃ m, unpack noIdna witnessF25c = some m ∧
+    ∀ b', pack noIdna m = some b' → unpack noIdna b' = none := by decide +kernel
+
 /-! ### non-vacuity -/
 
 /-- example.com. TXT "\x02\xc0\x0c" and MX with preference 0xC00C: the former defect witnesses are well-formed … -/
@@ -196,6 +204,11 @@ theorem reencode_stable_counterexample : ¬ ReencodeStable noIdna := by
   obtain ⟨m, hm, hne⟩ := witnessF25a_unstable
   obtain ⟨b', hp, hu⟩ := h _ m hm
   exact hne b' hp hu
+
+/-- … and in the form of finding F-C25c: the re-encoding of a decoded message can even be a parse error -/
+theorem reencode_rejected_counterexample : ∃ b m, unpack noIdna b = some m ∧ ∀ b', pack noIdna m = some b' → unpack noIdna b' = none := by
+  obtain ⟨m, h1, h2⟩ := witnessF25c_rejected
+  exact ⟨witnessF25c, m, h1, h2⟩
 
 /-- **C25 (decoding is total).** `unpack` is a total function from byte strings to "a message or a parse error".
     The substance is that Lean accepted the definitions: every loop of the decoder is structural or well-founded on
